@@ -171,6 +171,9 @@ func findEndTime(moov *mp4.MoovBox, durationMS int) (endTime, endTimescale uint6
 		if !foundSyncFrame {
 			return 0, 0, fmt.Errorf("did not find any syncframe at or after time")
 		}
+	} else {
+		// Without stss every sample is a sync sample: crop just before the sample found.
+		lastSampleNr--
 	}
 	lastTime, lastDur := stts.GetDecodeTime(lastSampleNr)
 	endTime = lastTime + uint64(lastDur)
